@@ -107,6 +107,7 @@ func genDispatch(tier string, seed uint64, idx int) interface{} {
 	overlap := tier == "thorough" || r.Bool(1, 4)
 	seq := 0
 	var subscribed []string
+	unknown := 0
 	for a := 0; a < napps; a++ {
 		var ops []AOp
 		n := 1 + r.Intn(5)
@@ -130,7 +131,22 @@ func genDispatch(tier string, seed uint64, idx int) interface{} {
 				}
 				ops = append(ops, op)
 			case k < 8 && len(subscribed) > 0:
-				ops = append(ops, AOp{K: "unsub", Filters: []string{subscribed[r.Intn(len(subscribed))]}})
+				op := AOp{K: "unsub", Filters: []string{subscribed[r.Intn(len(subscribed))]}}
+				if r.Bool(1, 3) {
+					// several filters in one request, possibly one that was never
+					// subscribed (its removal fails; the others must still go)
+					for j := r.Intn(2); j > 0; j-- {
+						op.Filters = append(op.Filters, subscribed[r.Intn(len(subscribed))])
+					}
+					if r.Bool(2, 3) {
+						unknown++
+						at := r.Intn(len(op.Filters) + 1)
+						fs := append([]string{}, op.Filters[:at]...)
+						fs = append(fs, fmt.Sprintf("nx%d/%d", a, unknown))
+						op.Filters = append(fs, op.Filters[at:]...)
+					}
+				}
+				ops = append(ops, op)
 			default:
 				ops = append(ops, AOp{K: "barrier"})
 			}
